@@ -456,6 +456,24 @@ func (e *Exec) ghostOwner(s *State, owner Value, ot types.Type) *Node {
 	return e.box(s, on, ot)
 }
 
+// hasOwnGhost: ghost fields are declared on the struct type this pointer type points to.
+func (v *Verifier) hasOwnGhost(ptrT types.Type) bool {
+	pt, ok := ptrT.Underlying().(*types.Pointer)
+	if !ok {
+		return false
+	}
+	n, ok := pt.Elem().(*types.Named)
+	if !ok {
+		return false
+	}
+	for _, gf := range v.db.Ghost {
+		if gf.Owner == n.Obj().Name() {
+			return true
+		}
+	}
+	return false
+}
+
 func ghostHeapName(gf *GhostField) string { return "G:" + gf.Owner + "." + gf.Name }
 
 func (v *Verifier) ghostImmutable(heap string) bool { return false }
@@ -690,6 +708,8 @@ func (e *Exec) ghostValSort(gf *GhostField) string {
 		return "Int"
 	case "ref":
 		return RefSort
+	case "string":
+		return e.mode.leafSort(types.Typ[types.String])
 	}
 	panic("unsupported ghost field type " + gf.Type)
 }
@@ -714,6 +734,8 @@ func (c *SpecCtx) ghostFieldRead(owner Value, ot types.Type, gf *GhostField) (Va
 		return v, mathInt
 	case "ref":
 		return v, types.Typ[types.UnsafePointer]
+	case "string":
+		return v, types.Typ[types.String]
 	}
 	panic("ghost type")
 }
